@@ -170,6 +170,7 @@ def check_opens(S, tv):
 def run_frets(case):
     """case = [key, desc, maxfret | None, form]: find_frets for every note 0..127."""
     S = engine.S
+    S.sample(case)
     key, dk, maxfret, form = case
     tv = view([key, dk])
     op = check_opens(S, tv)
@@ -197,6 +198,7 @@ def run_frets(case):
 def run_get_note(case):
     """case = [key, desc, maxfret | None]: strings -1..n, frets -1..maxfret+1."""
     S = engine.S
+    S.sample(case)
     key, dk, maxfret = case
     tv = view([key, dk])
     op = check_opens(S, tv)
@@ -254,6 +256,7 @@ def _satisfies(t, iprefix, dprefix, nstr, ncourses):
 
 def run_lookup(case):
     S = engine.S
+    S.sample(case)
     kind = case[0]
     S.trans(1)
     if kind == "tunings":
@@ -343,6 +346,7 @@ def _shape_ok(f, k):
 def run_fingering(case):
     """case = [key, desc, pitches, max_distance | None, form]"""
     S = engine.S
+    S.sample(case)
     key, dk, pitches, md, form = case
     tv = view([key, dk])
     op = check_opens(S, tv)
@@ -442,6 +446,7 @@ CHORDS_T = CHORDS_Q + ["6", "m6", "9", "dim7", "sus2", "5", "m7b5", "13"]
 def run_chord_fingering(case):
     """case = [key, desc, chord, max_fingers | None, max_distance | None, form]"""
     S = engine.S
+    S.sample(case)
     key, dk, chord, max_fingers, md, form = case
     tv = view([key, dk])
     op = tv.opens()
@@ -685,6 +690,7 @@ def decode(S, site, text, read_entries=True):
 def run_tab_note(case):
     """case = [tkey | None, pitch, width | None, form]"""
     S = engine.S
+    S.sample(case)
     tkey, p, width, form = case
     tv = view(tkey)
     op = tv.opens()
@@ -722,6 +728,7 @@ def run_tab_note(case):
 def run_tab_container(case):
     """case = [tkey | None, pitches, width | None, form]"""
     S = engine.S
+    S.sample(case)
     tkey, pitches, width, form = case
     tv = view(tkey)
     if form == "nc":
@@ -840,6 +847,7 @@ def bars_of_zoo(kinds, values, max_entries, meter, contents):
 def run_tab_bar(case):
     """case = [tkey | None, meter, entries, width | None]"""
     S = engine.S
+    S.sample(case)
     tkey, meter, entries, width = case
     tv = view(tkey)
     bar = build_bar(meter, entries)
@@ -876,6 +884,9 @@ def run_tab_bar(case):
         S.problem(site, exp, got, detail=text.split("\n"), tags={"kind": "decode"})
     S.count("tab_entries_decoded", len(exp))
     S.count("tab_bars_decoded")
+    q = quarter_size(w, actual)
+    if any(c is not None and zone_cached(tv, c)[0] == "core" and share(q, V.BY_LABEL[v][2]) == zone_cached(tv, c)[1] + 1 for v, c in entries):
+        S.count("tab_bars_decoded_at_the_narrowest_admissible_width")
     if any(f >= 10 for b in systems[0]["bars"] for e in b for _, f in e["frets"]):
         S.count("tab_two_digit_frets_decoded")
     S.outcome(("bar", tuple((e["column"], tuple(e["frets"])) for b in systems[0]["bars"] for e in b), systems[0]["length"]))
@@ -903,7 +914,12 @@ def gen_tab_bar(shard):
         kinds = ["A", "B", "C", "D", "R", "U", "X", "E"]
         values = ["4", "8", "2"] if tier == "quick" else ["1", "2", "4", "8", "16", "4.", "4*3:2", "8*3:2", "16*5:4", "32"]
         widths = [None, 30, 60, 100] if tier == "quick" else [None, 17, 25, 30] + WIDTHS
-        meters = [(4, 4)] if tier == "quick" else [(4, 4), (3, 4), (6, 8), (2, 2), (12, 8)]
+        if depth == "meters":
+            if tier == "quick":
+                values = ["4", "8", "2", "4.", "8*3:2"]
+            meters = [(3, 4), (6, 8), (2, 2), (12, 8)]
+        else:
+            meters = [(4, 4)]
         for m in meters:
             for entries in bars_of_zoo(kinds, values, 2, m, contents):
                 for w in widths:
@@ -945,6 +961,7 @@ def make_track(tv, bars, via):
 def run_tab_track(case):
     """case = {"tkey": ..., "via": "default" | "arg" | "track" | "instr", "bars": [[meter, entries]...], "width": int | None}"""
     S = engine.S
+    S.sample(case)
     tkey, via, bars, width = case["tkey"], case["via"], case["bars"], case["width"]
     tv = view(tkey if via != "default" else None)
     t = make_track(tv, bars, via)
@@ -1026,6 +1043,7 @@ def comp_track_descr(i):
 def run_tab_composition(case):
     """case = {"tracks": [{"tkey", "via", "bars"}...], "width": int | None, "header": {...}}"""
     S = engine.S
+    S.sample(case)
     width = case["width"]
     page = 80 if width is None else width
     bw = bar_width(page)
@@ -1146,6 +1164,21 @@ def _gen_get_note(idx):
         yield [key, dk, mf]
 
 
+# tunings whose bar zoo is explored to 3 entries: default guitar, a bass (labels with commas), the re-entrant ukulele and
+# 5-string banjo; thorough adds a 3-string dulcimer with two equal strings, the 6-string bass (label B,,), the octave
+# guitar (labels with two primes) and the mejorana
+DEEP_Q = [None, ["BASS GUITAR", "STANDARD 4-STRING TUNING"], ["UKULELE", "STANDARD C6 TUNING FOR SOPRANO, CONCERT AND TENOR."],
+          ["BANJO (5-STRING)", "OPEN G TUNING"]]
+DEEP_T = [["DULCIMER", "IONIAN TUNING (THE TRADITIONAL DULCIMER IS FRETTED DIATONICALLY WHOLE, WHOLE, HALF, WHOLE, WHOLE, HALF, WHOLE. )"],
+          ["BASS GUITAR", "STANDARD 6-STRING TUNING"], ["OCTAVE GUITAR", "SEE *SOPRANO GUITAR*"], ["MEJORANA", "STANDARD TUNING"]]
+
+
+def _tab_index(tkey):
+    if tkey not in TAB_KEYS:
+        raise engine.HarnessError("tuning %r is not registered (or has courses)" % (tkey,))
+    return TAB_KEYS.index(tkey)
+
+
 def explore(ctx):
     tier = ctx.tier
     nreg = len(REG)
@@ -1194,14 +1227,13 @@ def explore(ctx):
     if ctx.want("tab_container"):
         ctx.product("tab_container", [(i, tier) for i in range(ntab)], gen_tab_container)
     if ctx.want("tab_bar"):
-        deep = ctx.pick([0, 12, 17, 60], [0, 12, 17, 24, 30, 36, 60, 66])
-        deep = [i for i in deep if i < ntab]
-        ctx.bound("tab_bar", {"deep_tunings": [TAB_KEYS[i] for i in deep], "deep": "<= 3 entries", "all_tunings": "<= 2 entries",
-                              "widths": [None] + WIDTHS})
-        ctx.product("tab_bar", [(i, tier, "deep") for i in deep] + [(i, tier, "wide") for i in range(ntab)], gen_tab_bar)
+        deep = [_tab_index(k) for k in ctx.pick(DEEP_Q, DEEP_Q + DEEP_T)]
+        ctx.bound("tab_bar", {"deep_tunings": [TAB_KEYS[i] for i in deep], "deep": "4/4, <= 3 entries; meters 3/4 6/8 2/2 12/8, <= 2 entries",
+                              "all_tunings": "4/4, <= 2 entries", "widths": ctx.pick([None, 30, 60, 100], [None, 17, 25, 30] + WIDTHS)})
+        ctx.product("tab_bar", [(i, tier, "deep") for i in deep] + [(i, tier, "meters") for i in deep] +
+                    [(i, tier, "wide") for i in range(ntab)], gen_tab_bar)
     if ctx.want("tab_track"):
-        tt = ctx.pick([0, 12, 60], list(range(ntab)))
-        tt = [i for i in tt if i < ntab]
+        tt = ctx.pick([_tab_index(k) for k in DEEP_Q[:3]], list(range(ntab)))
         ctx.bound("tab_track", {"tunings": len(tt), "bars_per_track": ctx.pick("0..2 (default tuning 0..3)", "0..3 (default tuning 0..4)"),
                                 "pool": 7, "widths": [None] + WIDTHS})
         ctx.product("tab_track", [(i, tier) for i in tt], gen_tab_track)
@@ -1236,6 +1268,7 @@ def explore(ctx):
         ctx.guard("compositions decoded", c("tab_compositions_decoded"), 50)
         ctx.guard("compositions with simultaneous systems", c("tab_compositions_with_simultaneous_systems"), 20)
         ctx.guard("renderings at widths too narrow to decode (structure only)", c("tab_inadmissible_width"), 100)
+        ctx.guard("bars decoded with an entry exactly one column wider than its fret number", c("tab_bars_decoded_at_the_narrowest_admissible_width"), 100)
     if ctx.counter("tab_inadmissible_width"):
         ctx.note("%d renderings were at widths that do not give every entry its fret number plus one column; they were checked for line structure only" % ctx.counter("tab_inadmissible_width"))
     if ctx.counter("chord_fret_above_default_maxfret"):
